@@ -4,6 +4,7 @@ import (
 	"bytes"
 	"context"
 	"fmt"
+	goruntime "runtime"
 	"sort"
 	"strconv"
 	"strings"
@@ -127,6 +128,9 @@ func (g *gate) enter(kind string, mut bool) error {
 		return nil
 	}
 	g.n++
+	if strings.Contains(kind, "resourceclaim") && inUnAllocate() {
+		kind += "-unallocate" // the same calls are made by Bind and by the rollback (UnAllocate) of the DRA plugin
+	}
 	f := g.pl.CrashAt > 0 && g.n >= g.pl.CrashAt
 	for _, k := range g.pl.ErrAt {
 		if k == g.n {
@@ -138,6 +142,22 @@ func (g *gate) enter(kind string, mut bool) error {
 		return apierrors.NewInternalError(fmt.Errorf("verif: injected fault at client call %d (%s)", g.n, kind))
 	}
 	return nil
+}
+
+// inUnAllocate reports whether the calling goroutine is inside the DRA plugin's UnAllocate (rollback step).
+func inUnAllocate() bool {
+	pcs := make([]uintptr, 64)
+	n := goruntime.Callers(2, pcs)
+	frames := goruntime.CallersFrames(pcs[:n])
+	for {
+		fr, more := frames.Next()
+		if strings.Contains(fr.Function, "dynamicResourcesPlugin).UnAllocate") {
+			return true
+		}
+		if !more {
+			return false
+		}
+	}
 }
 
 // ---------------------------------------------------------------- world = one in-memory API store
